@@ -81,7 +81,7 @@ def check_case(case, shard, inner):
             obs, exp = UL.toms748_scan(data, model, lo_b, hi_b, level=level, **opts)
             pts, results = None, None
         else:
-            scan = np.linspace(case["grid"][0], case["grid"][1], case["grid"][2])
+            scan = np.asarray(case["grid_points"]) if case.get("grid_points") else np.linspace(case["grid"][0], case["grid"][1], case["grid"][2])
             if case.get("direct_grid"):
                 obs, exp, (pts, results) = UL.linear_grid_scan(data, model, scan, level, True, **opts)
             else:
@@ -178,7 +178,7 @@ def check_case(case, shard, inner):
                 shard.ok("per_point_results")
         except E.FailedMinimization:
             shard.skip("fit reported failure")
-        if case["mode"] != "auto" and [float(x) for x in pts] != [float(x) for x in np.linspace(case["grid"][0], case["grid"][1], case["grid"][2])]:
+        if case["mode"] != "auto" and [float(x) for x in pts] != [float(x) for x in (case.get("grid_points") or np.linspace(case["grid"][0], case["grid"][1], case["grid"][2]))]:
             shard.violate("C09/per-point-results", "returned scan points differ from the supplied grid", case, "per_point_results")
     # ---- the threshold actually used is the caller's: a different level gives a different limit
     if case.get("second_level"):
@@ -189,7 +189,7 @@ def check_case(case, shard, inner):
             elif case["mode"] == "toms748":
                 obs2, exp2 = UL.toms748_scan(data, model, *case["bracket"], level=l2, **opts)
             else:
-                obs2, exp2 = UL.upper_limit(data, model, np.linspace(*case["grid"]), l2, **opts)
+                obs2, exp2 = UL.upper_limit(data, model, np.asarray(case["grid_points"]) if case.get("grid_points") else np.linspace(*case["grid"]), l2, **opts)
             o2 = float(to_np(obs2))
             want_lower = l2 > level
             inside = True
@@ -209,6 +209,8 @@ def check_case(case, shard, inner):
     if level != 0.05 or case["mode"] == "grid":
         shard.nontrivial([len(c["samples"][0]["data"]) for c in case["spec"]["channels"]], case["data"], level, case["mode"], case.get("grid"), sorted(case["opts"].items()), case["backend"])
     shard.covered("levels", level)
+    if case.get("grid_points"):
+        shard.covered("grid_spacing", "non-uniform")
     shard.covered("modes", case["mode"] + ("/deprecated-api" if case.get("deprecated_api") else "") + ("/direct" if case.get("direct_grid") else ""))
     for k in case["opts"]:
         shard.covered("forwarded_options", k)
@@ -254,6 +256,14 @@ def make_case(rng, backend, kind):
     if mode == "grid":
         case["grid"] = [gen._round(rng.uniform(0.02, 0.15), 3), gen._round(rng.uniform(4.0, 9.5), 2), rng.randint(6, 14)]
         case["direct_grid"] = rng.random() < 0.3
+        if rng.random() < 0.45:
+            # grids "of any spacing": a wide first cell, a fine middle, a coarse tail
+            lo_g, hi_g = case["grid"][0], case["grid"][1]
+            a = lo_g + rng.uniform(0.3, 0.9)
+            b = a + rng.uniform(0.8, 2.0)
+            pts = [lo_g] + [a + k * (b - a) / 7 for k in range(8)] + [b + (hi_g - b) * f for f in (0.35, 0.7, 1.0)]
+            case["grid_points"] = sorted(set(gen._round(x, 4) for x in pts))
+            case["grid"] = [case["grid_points"][0], case["grid_points"][-1], len(case["grid_points"])]
     if mode == "toms748":
         case["bracket"] = [0.05, 8.0]
     if mode == "auto":
@@ -263,7 +273,7 @@ def make_case(rng, backend, kind):
     if backend in ("jax", "tensorflow"):
         # slow backends (per-model jit compilation / 1.5 s per hypotest): one curve re-evaluated, small grids
         case["check_curves"] = [0]
-        if mode == "grid":
+        if mode == "grid" and not case.get("grid_points"):
             case["grid"][2] = 6
     case.setdefault("check_curves", [0, rng.randint(1, 5)])
     return case
